@@ -13,17 +13,78 @@ PROPS = {
     'C19': dict(
         level='proof',
         scope='Expression::action, Expression::complex_frames, Size::mult, Size::byte_size, TimeSpec::secs verified in place '
-              'against spec functions written from the property statement, for all trees (structural induction, no depth bound) '
-              'and all u64 counts.',
+              'against spec functions written from the property statement, for all trees (structural induction, no depth bound, '
+              'all five operator variants incl. Precedence and nested List) and all u64 counts.',
         not_decided=[],
     ),
-    'C12': dict(level='proof', scope='refusal iff unsupported construct, for all parser-shaped trees', not_decided=[]),
-    'C09': dict(level='proof', scope='wrapping decision and operand order', not_decided=[]),
-    'C10': dict(level='proof', scope='mode rule, manager choice, table', not_decided=[]),
-    'C11': dict(level='proof', scope='id allocation discipline', not_decided=[]),
-    'C13': dict(level='proof', scope='RunOptions::update and thread emission', not_decided=[]),
-    'C03': dict(level='proof', scope='panic freedom of functions under contract', not_decided=[]),
-    'C17': dict(level='proof', scope='both debug_assertions configurations', not_decided=[]),
-    'C07': dict(level='proof', scope='count*unit', not_decided=[]),
-    'C15': dict(level='proof', scope='functional contracts', not_decided=[]),
+    'C12': dict(
+        level='proof',
+        scope='TargetScheme::compile for Test, Action, Operator, Expression, PositionalOption, placeholder(), and scheme::compile: '
+              'the result is Err exactly when the tree contains (at any depth, incl. dead branches and format strings) one of the '
+              'documented unsupported tests/actions/format fields/options, the error kind names such a construct, and every other '
+              'parser-shaped tree compiles. All trees, unbounded depth.',
+        not_decided=['the text of the error message (format!("{:?}") is opaque)',
+                     'that <Vec<FormatElement>>::compile propagates placeholder()\'s refusal (iterator collect::<Result>; assumed contract)',
+                     'that the parser only returns trees without Global/Precedence nodes (front end)'],
+    ),
+    'C09': dict(
+        level='proof',
+        scope='scheme::compile: the compiled tree is And(expression, default print) exactly when Expression::action() (proved equal to '
+              '`an Action node occurs at any depth`, C19) is false, else the expression itself; Operator/Expression::compile emit '
+              'the operands in order, each from the buffer state the previous step left, between the opening form and `)`, and '
+              'the default print emits exactly `(print-relative-path)`; hence the wrapper encloses the whole expression.',
+        not_decided=['that LiPE\'s (and X (print-relative-path)) prints exactly the files where X holds (runtime semantics of the target)'],
+    ),
+    'C10': dict(
+        level='proof',
+        scope='mode predicate (C19), manager choice in scheme::compile, `io_map is Some <=> needs_frames`, destination-table invariant of '
+              'DistributedSchemeManager (tags < counter, injective, whole-map postconditions: equal (destination, terminator) pairs '
+              'share one tag, different pairs never do), and routing: in framed mode the table gains exactly the destinations of the '
+              'output-producing actions of the tree.',
+        not_decided=['byte layout of a frame at run time (the frame lambda is a constant string executed by Guile)',
+                     'DistributedSchemeManager::printer_map inverts the tag map (iterator map/collect; assumed contract)'],
+    ),
+    'C11': dict(
+        level='proof',
+        scope='representation invariant of both managers proved preserved by every method from Default: every live resource owns an id '
+              'interval below the counter, intervals of different resources are disjoint (no id handed out twice, every map injective), '
+              'a port\'s mutex is the next id, every printer is keyed by an existing port; whole-map postconditions (identical requests '
+              'share, requests differing in any key component get fresh ids, all other entries untouched).',
+        not_decided=['scoping of the generated names inside the emitted let* at run time (Guile)'],
+    ),
+    'C13': dict(
+        level='proof',
+        scope='RunOptions::update is total (no precondition, no panic) and records exactly: Depth sets depth only, Threads(v) sets '
+              'threads = Some(v) only, anything else changes nothing; lemma: folding update in input order yields the last -threads '
+              'value and depth iff some -depth occurred; scheme::compile emits the runtime-default thread expression when none was given.',
+        not_decided=['position independence, the leading-run rule, `an option inside the expression behaves as -true`, `no option reaches '
+                     'the tree` (winnow combinator code in _parse)'],
+    ),
+    'C03': dict(
+        level='proof',
+        scope='every function verified in place (see coverage.functions_verified_for_safety) is proved free of panics (unwrap, unreachable!, '
+              'todo!, index), arithmetic overflow and non-termination, for all parser-shaped trees with fewer than 2^30 nodes, under '
+              'both debug_assertions settings; lifted front-end fragments with unwrap()s are decided by Kani over the domain the '
+              'adjacent combinator admits.',
+        not_decided=['the external_body leaves (coverage.external_body_assumed), notably duration_since(UNIX_EPOCH).unwrap() and comps.first().unwrap()',
+                     'all combinator code incl. parse()\'s into_inner().unwrap() and ParserError::dispatch; thiserror\'s Display'],
+    ),
+    'C17': dict(
+        level='proof',
+        scope='the same functional postconditions are discharged with -C debug-assertions=on and =off and overflow freedom is proved, so '
+              'neither cfg(debug_assertions) arms nor overflow checking can be observed through a function under contract.',
+        not_decided=['front end (combinator code)'],
+    ),
+    'C07': dict(
+        level='proof',
+        scope='count*unit: Size::byte_size returns exactly count*unit for every u64 count (128-bit result, overflow freedom proved); '
+              'unit tables (C19); the thread count and comparison operands reach the emitted text without narrowing conversions.',
+        not_decided=['digit run -> integer (str::parse::<uN>, winnow glue)'],
+    ),
+    'C15': dict(
+        level='proof',
+        scope='every contract is functional: ids, sharing tables, io_map and the structure of the emitted text are functions of '
+              '(tree, options); compile builds its manager from Default; no verified function reads global state.',
+        not_decided=['parse determinism (combinators)', 'the clock window of time tests (compile_time_comp is external: SystemTime)'],
+    ),
 }
